@@ -1,0 +1,16 @@
+//go:build verif
+
+package gelf
+
+// Contracts for the verification harness under /verif (comment-only file).
+//
+// C19 (GELF envelope, "whatever characters the events or routing fields contain"):
+// an extra-field name is built from an event key byte by byte.  Everything
+// formatExtraField appends is an ASCII letter, digit, '_', '-' or '.', for every
+// key - so the name never needs escaping and never carries a truncated code point.
+
+//@ func (*Plugin).formatExtraField
+//@   ensures len(result) >= len(encodeBuf)
+//@   ensures forall k :: len(encodeBuf) <= k && k < len(result) ==> (('a' <= result[k] && result[k] <= 'z') || ('A' <= result[k] && result[k] <= 'Z') || ('0' <= result[k] && result[k] <= '9') || result[k] == '_' || result[k] == '-' || result[k] == '.')
+//@   loop 1 invariant len(encodeBuf) > old(len(encodeBuf))
+//@   loop 1 invariant forall k :: old(len(encodeBuf)) <= k && k < len(encodeBuf) ==> (('a' <= encodeBuf[k] && encodeBuf[k] <= 'z') || ('A' <= encodeBuf[k] && encodeBuf[k] <= 'Z') || ('0' <= encodeBuf[k] && encodeBuf[k] <= '9') || encodeBuf[k] == '_' || encodeBuf[k] == '-' || encodeBuf[k] == '.')
